@@ -95,7 +95,8 @@ theorem sensor_by_name (d : EkfDef) (s : SensorDef) (env : Env Rat) (spec : List
 /-- **The entries are true partial derivatives.** Under the hypotheses of `entry_is_partial`, and if the
 output itself evaluates at the point, entry `(i,j)` is the derivative — in the sense of Mathlib's
 `HasDerivAt` over ℝ — of `t ↦ outᵢ[wrtⱼ := t]` at the point (fragment `+ − × ÷ ^ℤ`; the model's
-`Expr.diff` is proven correct in `Proofs/Diff.lean` also for `sin cos exp`). -/
+`Expr.diff` is proven correct in `Proofs/Diff.lean` also for `sin cos exp log sqrt tan sinh cosh atan`
+inside their domains). -/
 theorem entry_is_true_partial (env : Env Rat) (outs : List Expr) (wrt : List Name) (cols : Nat)
     (flat : List Rat) (h : EkfDef.evalAll env (jacobianFlat outs wrt) = some flat)
     (hc : cols ≤ wrt.length) (i : Fin outs.length) (j : Fin cols) (w : ℚ)
@@ -110,6 +111,14 @@ theorem entry_is_true_partial (env : Env Rat) (outs : List Expr) (wrt : List Nam
 theorem model_diff_correct (ρ : Name → ℝ) (x : Name) (e : Expr) (h : DefinedR ρ e) :
     HasDerivAt (fun t => evalR (Function.update ρ x t) e) (evalR ρ (e.diff x)) (ρ x) :=
   diff_correct ρ x e h
+
+/-- non-vacuity beyond the rational fragment: `log (1 + x²) · tan x / sqrt (2 + y)` is defined (in the sense the theorem
+asks for) at `x = 0, y = 1` -/
+example : DefinedR (fun n => if n = "y" then 1 else 0)
+    (.div (.mul (.app "log" (.add (.num 1) (.pow (.var "x") 2))) (.app "tan" (.var "x")))
+      (.app "sqrt" (.add (.num 2) (.var "y")))) := by
+  simp [DefinedR, evalR]
+  norm_num
 
 /-- why the stride must be the number of *columns of the program*: with 2 readings over 3 columns,
 un-flattening with stride 2 (the number of readings) misplaces the second row -/
